@@ -33,3 +33,11 @@ Theorem c27_encoder_progress : forall i l N es, in_domain i -> pools i = Some l 
   all_enabled N P D init es = true -> stuck N P D (run N P D init es) ->
   finished (run N P D init es) /\ got (run N P D init es) = seq 0 N.
 Proof. exact encoder_pool_progress. Qed.
+
+(* the reference-picture pool and the PA-reference pool cover what the prediction structure keeps in flight (a mini-GOP of 2^hl
+   pictures: half of them references next to the 8 + 2 of the decoded-picture buffer; one PA reference per picture of the
+   mini-GOP, the next base, 8 past references, the delays, the look-ahead window under TPL; doubled with overlays), for every
+   configuration of the domain - the sizes the pinned tree allocated for six layers (18, and +8 on one core only) do not *)
+Theorem c27_reference_pools_cover_structure : forall i l, in_domain i -> pools i = Some l ->
+  (demand_paref i <= nth 3 l 0 /\ demand_ref i <= nth 4 l 0)%Z.
+Proof. exact ref_pools_sufficient. Qed.
